@@ -128,7 +128,7 @@ def stream_letters(seq):
   return L
 
 
-HUB_LETTERS = [("use",), ("happendto",), ("hpeek", None), ("hpeek", 0), ("hpeek", 2), ("hpeek", 2.6),
+HUB_LETTERS = [("use",), ("happendto",), ("hthub", 1), ("hthub", 2), ("hpeek", None), ("hpeek", 0), ("hpeek", 2), ("hpeek", 2.6),
                ("hpeek", 5), ("hpeek", "inf"), ("hcopy",),
                ("hmap",), ("hfilter",), ("hskip", 1), ("hlimit", 1),
                ("happend",), ("htake",)]
@@ -178,6 +178,9 @@ class World(object):
           if self.pool == "hetero" and l[0] in ("hmap", "hfilter"):
             continue
           if len(self.model) >= 5 and l[0] not in ("htake", "happendto") and not l[0].startswith("hpeek"):
+            continue
+          if l[0] == "hthub" and (len(self.model) >= 4 or left == 0):     # (an exhausted inner hub makes the failed
+            # constructor's half-built object complain in __del__: stderr noise, nothing to learn)
             continue
           if l[0] == "happendto" and not any(k_ == "s" for k_, _, _ in self.model.values()):
             continue
@@ -339,6 +342,22 @@ class World(object):
       if obs != "new":
         self.new(Stream([]), "s", seq, sig)
       return "new", obs
+    if name == "hthub":
+      # a hub given as the data of another thub: ONE use of the inner hub is taken, the new hub hands
+      # out exactly n uses of the same sequence, and the inner hub keeps its other uses
+      if left == 0:
+        return "IndexError", self._obs(lambda: thub(t, arg) and "hub")
+      M[h][1] = (seq, left - 1)
+      def do():
+        t2 = thub(t, arg)
+        if t2 is t or not hasattr(t2, "copy"):
+          return "not a new hub"
+        self.new(t2, "h", (seq, arg), sig | {"hthub"})
+        return "hub"
+      obs = self._obs(do)
+      if obs != "hub":
+        self.new(thub([], 0), "h", (seq, arg), sig)
+      return "hub", obs
     if name == "happendto":
       # the hub given as the argument of another Stream's append(): that is one use of the hub, taken
       # at the call, and the stream goes on with the hub's whole sequence after its own items
